@@ -25,6 +25,7 @@ func c03(c *Ctx) {
 	c03token(c)
 	c03reserve(c)
 	c03monitor(c)
+	scriptDispatch(c, "C03.R8")
 }
 
 // luaOrdFeasible: facts of the path agree with the ordering ord(a,b) (-1,0,1) where isA/isB classify operands.
